@@ -1,6 +1,7 @@
 package c14
 
 import (
+	"context"
 	"fmt"
 	"math/rand"
 	"sync"
@@ -56,19 +57,53 @@ type headMsg struct {
 	bad  *badValue
 	data []byte
 	kind string
+	// low != 0: not a message but a low-level write with a deadline context (1 CtxWrite1, 2 CtxWritev), after which the
+	// transport's clock is moved past that deadline: nothing of it may linger on the transport for the messages that follow
+	low int
 }
 
 func headTrial(c *core.Ctx, id string, m chanMode, msgs []headMsg, rng *rand.Rand) {
 	rec := &excRec{}
-	rig := mon.NewRig(mon.RigOpts{Mode: m.mode, Queue: m.q, Handlers: []netty.Handler{rec}, NoHooks: true})
+	tr := mon.NewRecTransport()
+	tr.HonourDeadlines = true
+	ro := mon.RigOpts{Mode: m.mode, Queue: m.q, Handlers: []netty.Handler{rec}, NoHooks: true, Tr: tr}
+	wrapped := ""
+	if len(msgs) > 1 && rng.Intn(3) == 0 {
+		// on the library's write-buffering transport wrappers, with a slow connection underneath: on a queued channel the
+		// sender then works through a backlog in several batches between two flushes
+		wv := [][2]int{{0, 64}, {64, 64}, {0, 1024}, {4096, 4096}}[rng.Intn(4)]
+		ro.Wrap = &wv
+		ro.Plan = []mon.Step{{At: "tW0", Occ: 0, Kind: mon.Sleep, D: time.Duration(50+rng.Intn(200)) * time.Microsecond}}
+		wrapped = fmt.Sprintf(" on NewTransport(conn,%d,%d)", wv[0], wv[1])
+		c.Count("head_sequences_on_buffering_wrapper", 1)
+	}
+	rig := mon.NewRig(ro)
 	defer rig.Dispose()
 
-	det := headDetail{Mode: m.name}
+	det := headDetail{Mode: m.name + wrapped}
 	var want []byte
 	nbad := 0
 	for _, hm := range msgs {
 		var msg interface{}
 		sm := sentMsg{}
+		if hm.low != 0 {
+			ctx, cancel := context.WithDeadline(context.Background(), tr.Now().Add(time.Hour))
+			var err error
+			if hm.low == 1 {
+				sm.Carrier = "CtxWrite1(deadline context)"
+				_, err = rig.Ch.CtxWrite1(ctx, clone(hm.data))
+			} else {
+				sm.Carrier = "CtxWritev(deadline context)"
+				_, err = rig.Ch.CtxWritev(ctx, splitv(clone(hm.data), rng, 700))
+			}
+			cancel()
+			tr.AdvanceClock(2 * time.Hour)
+			sm.Size, sm.Content, sm.WriteOK = len(hm.data), hm.kind, err == nil
+			want = append(want, hm.data...)
+			det.Messages = append(det.Messages, sm)
+			c.Count("head_deadline_writes_between_messages", 1)
+			continue
+		}
 		if hm.bad != nil {
 			msg, sm.Carrier, sm.Bad = hm.bad.v, hm.bad.name, true
 			nbad++
@@ -197,6 +232,14 @@ func runHeadSeq(c *core.Ctx, id string, k kase) {
 			bv := bvs[rng.Intn(len(bvs))]
 			msgs = append(msgs, headMsg{bad: &bv})
 			shape += "!"
+			continue
+		}
+		if rng.Intn(6) == 0 {
+			sz := []int{1, 100, 1500}[rng.Intn(3)]
+			data, kind := content(rng, sz)
+			data[0] = byte(0xF0 + i)
+			msgs = append(msgs, headMsg{low: 1 + rng.Intn(2), data: data, kind: kind})
+			shape += "D"
 			continue
 		}
 		ci := rng.Intn(len(carriers))
